@@ -3,7 +3,8 @@ import json, os, glob
 H = os.path.dirname(os.path.dirname(os.path.abspath(__file__)))
 print("| seeded change | property | what it changes | needs to manifest | detection |")
 print("|---|---|---|---|---|")
-for d in sorted(glob.glob(os.path.join(H, "seeded", "*"))):
+for d in sorted(glob.glob(os.path.join(H, "seeded", "*", ""))):
+    d = d.rstrip("/")
     m = json.load(open(os.path.join(d, "meta.json")))
     def cl(t, n=260):
         t = " ".join(str(t).split()).replace("|", "/")
